@@ -43,6 +43,8 @@ def run(tier):
     for var in variants:
         exe = core.build_exe("decdrv", ["decdrv.c", "refdec.c"], var)
         pending = script(ck.rng, tier)
+        if var == "san":
+            ck.sample(pending)
         part = 0
         while pending and part < 30:
             part += 1
